@@ -18,6 +18,7 @@ from pathlib import Path
 import xml.etree.ElementTree as ET  # for general XML parsing
 import xml.parsers.expat  # for fast scanning of Lexicon versions
 from xml.sax.saxutils import quoteattr
+from html import unescape
 
 import wn
 from wn._types import AnyPath, VersionInfo
@@ -398,14 +399,23 @@ def scan_lexicons(source: AnyPath) -> list[ScanInfo]:
     source = Path(source).expanduser()
     infos: list[ScanInfo] = []
 
-    lex_re = re.compile(b'<(Lexicon|LexiconExtension|Extends)\\b([^>]*)>', flags=re.M)
-    attr_re = re.compile(b'''\\b(id|version|label)=["']([^"']+)["']''', flags=re.M)
+    lex_re = re.compile(
+        b'''<(Lexicon|LexiconExtension|Extends)\\b((?:[^>"']|"[^"]*"|'[^']*')*)>''',
+        flags=re.M
+    )
+    attr_re = re.compile(
+        b'''\\b(id|version|label)\\s*=\\s*(["'])(.*?)\\2''', flags=re.M | re.S
+    )
+
+    def _value(raw: bytes) -> str:
+        # apply XML attribute-value normalization and expand references
+        return unescape(re.sub(r'[\t\r\n]', ' ', raw.decode('utf-8')))
 
     with open(source, 'rb') as fh:
         for m in lex_re.finditer(fh.read()):
             lextype, remainder = m.groups()
             attrs = {
-                _m.group(1).decode("utf-8"): _m.group(2).decode("utf-8")
+                _m.group(1).decode("utf-8"): _value(_m.group(3))
                 for _m in attr_re.finditer(remainder)
             }
             info: ScanInfo = {
